@@ -15,7 +15,7 @@ the family trait method returns (a struct literal, or a call of the inherent `ne
     `v.reverse()`, `v.truncate(..)`, `v.retain(..)`).
 
 So every operand becomes a child, exactly once, at its own position."""
-from .. import scan
+from .. import scan, families
 from . import flow
 
 ELEM_WRAPPERS = {
@@ -125,6 +125,8 @@ def peel_container(M, t, bi=None):
 
 
 CHILD_FIELDS = ("futures", "streams", "elems")
+SIZED_TABLES = {("OutputVec", "uninit"), ("WakerVec", "new"), ("PollVec", "new_pending"), ("PollVec", "new"), ("Indexer", "new"),
+                ("OutputArray", "uninit_sized")}
 
 
 def _tuple_field_positions(M, member):
@@ -218,6 +220,19 @@ def rule_children(ctx, M, u, rule):
                 probs.append(why)
             elif inner != selfp:
                 probs.append("children container is not built from the operand")
+            # every per-child table is sized by the number of children (not by a capacity, not by another container)
+            for name, tv in sorted(view.items()):
+                if tv is None or tv[0] != "call" or tv[1] not in SIZED_TABLES or not tv[2]:
+                    continue
+                sz = tv[2][0]
+                good = False
+                if sz[0] == "call" and sz[1][1] == "len" and sz[2]:
+                    src, w2 = peel_container(M, sz[2][0], bi=bi)
+                    good = w2 is None and src == selfp
+                elif u.container == "array" and sz[0] in ("sym", "constexpr"):
+                    good = True       # the array's length parameter
+                if not good:
+                    probs.append("`%s` is not sized by the number of children (%s)" % (name, families.short(sz)))
     # nothing rearranges the operand / the container in place on the way
     for b_ in (m.ctor, m.new):
         if b_ is None:
